@@ -27,7 +27,7 @@
      has_violation / goodb   the executable forms of `exists j, reach /\ violated` and `good` *)
 From PV Require Import Lib.Base Model.Schema Model.Validate Gen.SchemaTables
   Proofs.Schema_lemmas Proofs.Validate_lemmas Proofs.Validate_table Proofs.Validate_anchor
-  Model.Duration Proofs.Duration_lemmas.
+  Model.Duration Proofs.Duration_lemmas Model.ValidateDeep Proofs.ValidateDeep_lemmas.
 Open Scope N_scope.
 
 (* ---------------------------------------------------------------- rejection *)
@@ -368,3 +368,60 @@ Example C13_duration_example :
   (exists e, parse_duration (s2l "-P1Y2M3DT4H5M6.50S" ++ s2l " ") = Err e).
 Proof. exact duration_example. Qed.
 Print Assumptions C13_duration_example.
+
+(* ---------------------------------------------------------------- DEPTH: chains built from a depth number
+   Model/ValidateDeep.v: `deep steps n leaf` wraps leaf n times, level j by step (j mod length steps); a step is the
+   parent instance with a hole.  child_step S f: f x is an instance of a class of S that holds x under a declared
+   child member (step_of c a t before m after xa xe is one as soon as m is a child member of class c:
+   step_of_child_step).  The harness hands these very terms to coqc for the 23 cycles of the 16 recursive classes of
+   the regenerated tables (StatusCode in StatusCode, Assertion > Advice > Assertion, EntitiesDescriptor in
+   EntitiesDescriptor, ...) at 8, 31, 32, 33 and 64 levels. *)
+(* for EVERY number n of levels (induction over n): the innermost instance stays reachable ... *)
+Theorem C13_deep_reach :
+  forall S steps n leaf, Forall (child_step S) steps -> reach S (deep steps n leaf) leaf.
+Proof. exact deep_reach. Qed.
+Print Assumptions C13_deep_reach.
+
+(* ... so ONE violation at the innermost level - or anywhere below it - of a chain of any depth is refused by
+   valid_instance(root) and by root.verify() *)
+Theorem C13_rejects_at_any_depth :
+  forall prim keys S NIL M1 M2 M3 M4 M5 M6 M7 M8 M9 M10 M11 steps n leaf j,
+    plain_av S -> Forall (child_step S) steps -> reach S leaf j -> violated prim keys S j ->
+    (exists e, valid_instance prim keys S NIL M1 M2 M3 M4 M5 M6 M7 M8 M9 M10 M11 (deep steps n leaf) = Err e) /\
+    (exists e, verify prim keys S NIL M1 M2 M3 M4 M5 M6 M7 M8 M9 M10 M11 (deep steps n leaf) = Err e).
+Proof. exact rejects_deep_below. Qed.
+Print Assumptions C13_rejects_at_any_depth.
+
+Theorem C13_step_of_is_child_step :
+  forall S c a t before m after xa xe r,
+    find_row S c = Some r -> In m (child_members r) -> child_step S (step_of c a t before m after xa xe).
+Proof. exact step_of_child_step. Qed.
+Print Assumptions C13_step_of_is_child_step.
+
+(* the valid twin: steps that keep a good tree good, around a good innermost instance, at any depth: accepted *)
+Theorem C13_accepts_at_any_depth :
+  forall prim keys S NIL M1 M2 M3 M4 M5 M6 M7 M8 M9 M10 M11 steps n leaf,
+    Forall (good_step prim keys S NIL M1 M2 M3 M4 M5 M6 M7 M8 M9 M10 M11) steps ->
+    good prim keys S NIL M1 M2 M3 M4 M5 M6 M7 M8 M9 M10 M11 leaf ->
+    verify prim keys S NIL M1 M2 M3 M4 M5 M6 M7 M8 M9 M10 M11 (deep steps n leaf) = ok /\
+    valid_instance prim keys S NIL M1 M2 M3 M4 M5 M6 M7 M8 M9 M10 M11 (deep steps n leaf) = ok.
+Proof. exact accepts_deep. Qed.
+Print Assumptions C13_accepts_at_any_depth.
+
+(* repeated SIBLINGS: a list member x under a declared member m, after w - 1 copies of ANY sibling (equal-looking to x
+   or not), whatever stands before and after: a violation in or below x is refused - every member is checked *)
+Theorem C13_rejects_repeated_sibling :
+  forall prim keys S NIL M1 M2 M3 M4 M5 M6 M7 M8 M9 M10 M11 c a t before m sib w x after xa xe r j,
+    plain_av S -> find_row S c = Some r -> In m (child_members r) -> reach S x j -> violated prim keys S j ->
+    (exists e, valid_instance prim keys S NIL M1 M2 M3 M4 M5 M6 M7 M8 M9 M10 M11 (I c a t (before ++ wide m sib w x ++ after) xa xe) = Err e) /\
+    (exists e, verify prim keys S NIL M1 M2 M3 M4 M5 M6 M7 M8 M9 M10 M11 (I c a t (before ++ wide m sib w x ++ after) xa xe) = Err e).
+Proof. exact rejects_sibling. Qed.
+Print Assumptions C13_rejects_repeated_sibling.
+
+(* non-vacuity: a one-class schema whose class holds itself and requires an attribute: for every n the chain around an
+   innermost instance without the attribute is refused; evaluated at 0, 1, 33, 200 levels; the valid twin accepted *)
+Example C13_deep_example : forall n,
+  (exists e, valid_instance toy_prim [s2l "string"] TOY 0 0 0 0 0 0 0 0 0 0 0 0 (deep [toy_step] n toy_bad) = Err e) /\
+  (exists e, verify toy_prim [s2l "string"] TOY 0 0 0 0 0 0 0 0 0 0 0 0 (deep [toy_step] n toy_bad) = Err e).
+Proof. exact deep_example_rejected. Qed.
+Print Assumptions C13_deep_example.
